@@ -43,7 +43,9 @@ for sid in sorted(os.listdir(ROOT)):
     ck = v.get("checks", {})
     caught = "; ".join(f"{k}: " + ("caught" + (" (concrete input)" if c["violations"] > c["without_input"] else " (no-failing-input-found)") if c["exit"] else "MISSED")
                        for k, c in ck.items())
-    rows.append(f"| {sid} | {m.get('property')} | {m.get('title','')[:90]} | {m.get('needs_to_manifest','')[:110]} | {'yes' if v.get('confirmed') else 'no'} | {caught} |")
+    if v.get("obsolete"):
+        caught = "OBSOLETE: " + v["obsolete"][:160]
+    rows.append(f"| {sid} | {m.get('property')} | {m.get('title','')[:90]} | {m.get('needs_to_manifest','')[:110]} | {'yes' if (v.get('confirmed') or v.get('confirmed_at_creation')) else 'no'} | {caught} |")
 open(os.path.join(ROOT, "README.md"), "w").write(
     "# Seeded changes\n\nEach directory holds a change to /repo written by an independent agent that saw only the property text "
     "(patch.diff, demo, meta.json incl. our verification record). `confirmed` = demo exits 0 without / non-zero with the change and all "
